@@ -226,7 +226,7 @@ def _run_in_slot(h, res, slot_dir, log, logdir):
         # Kani prints `- Stub: a :: b :: f -> g`; expectations may be written as a bare name or as `path::f -> path::g`
         lines = [re.sub(r"\s+", "", x) for x in res.stubs]
         for s in h["stubs_expected"]:
-            toks = [t.strip().split("::")[-1] for t in s.split("->")]
+            toks = [re.sub(r"\s+", "", t).split("::")[-1] for t in s.split("->")]
             if not any(all(t in ln for t in toks) for ln in lines):
                 res.status, res.reason = "inconclusive", f"stub {s} was not applied"
     return res
